@@ -131,6 +131,7 @@ namespace
             auto&       w  = world();
             long        c0 = w.up_calls, f0 = w.up_fails, d0 = w.up_frees;
             void*       p  = nullptr;
+            cur->note_top();
             std::string r  = classify(
                 [&]
                 {
@@ -169,7 +170,7 @@ namespace
             e.i("ups", w.up_calls - c0).i("upf", w.up_fails - f0).i("ufs", w.up_frees - d0);
             e.i("cap0", s0.cap).i("cap1", s1.cap).ic("ncap0", s0.ncap).ic("ncap1", s1.ncap);
             e.i("fn0", s0.fn).i("fn1", s1.fn).uc("mxn", mn).uc("mxa", ma).uc("mxal", mal);
-            e.i("g", gen);
+            e.i("g", gen).b("mv", cur->top_changed());
         }
 
         // index of the r-th live handle by age (oldest first) or by address rank
